@@ -1,0 +1,17 @@
+// Copyright ©2026 The Gonum Authors. All rights reserved.
+// Use of this source code is governed by a BSD-style
+// license that can be found in the LICENSE file.
+
+//go:build verif
+
+package fftpack
+
+// Verification hook (build tag verif; comments only). The transforms are not
+// verified: callers in dsp/fourier are checked against these assumed
+// (trusted) contracts, which state only the argument checks and the write
+// frame of the routines. See /verif/DESIGN.md.
+
+//@ trusted Rfftf Rfftb
+//@ valid len(r) >= n && len(work) >= 2*n && len(ifac) >= 15
+//@ panics iff !valid
+//@ writes r[k] for k in 0..n ; work[*]
